@@ -522,3 +522,70 @@ func c01Lengths(c *vrep.Ctx) {
 		}
 	})
 }
+
+// c01Refrains: user documents in which the same run of words recurs R times, for R just below /
+// above the powers of two 16..512 (quick: ..256) and 300: clauses that all open with the same
+// words (the refrain also opens the document), a strictly periodic body behind a preamble, and
+// lines sharing a ten-word interior. The verbatim copy must be reported exactly.
+func init() { vRegister("c01_refrains", c01Refrains) }
+
+func c01Refrains(c *vrep.Ctx) {
+	ts := []float64{0.7, 0.8, 1}
+	var reps []int
+	for _, b := range []int{16, 32, 64, 128, 256, 512}[:c.Pick(5, 6)] {
+		for d := -2; d <= 2; d++ {
+			reps = append(reps, b+d)
+		}
+	}
+	reps = append(reps, 300)
+	shapes := []string{"clauses opening with the same four words", "preamble + strictly periodic body", "lines sharing a ten-word interior"}
+	c.R.Rule = fmt.Sprintf("user documents with a run of words recurring R times, R in %v x shapes %q x thresholds %v x {own lines behind unrelated words, bare}: the verbatim copy must be reported with Confidence 1.0 and its exact span and lines; non-trivial = cases", reps, shapes, ts)
+	c.Bound("repeat_counts", fmt.Sprint(reps))
+	body := func(r *vx.Run) {
+		ti := r.Choose(len(ts), "threshold")
+		ri := r.Choose(len(reps), "repeats")
+		if r.Scout() {
+			return
+		}
+		shape := r.Choose(len(shapes), "shape")
+		ctx := r.Choose(2, "context")
+		R := reps[ri]
+		var lines []string
+		switch shape {
+		case 0:
+			for i := 0; i < R; i++ {
+				lines = append(lines, "the licensee shall not "+vFillerWord(2*i)+" "+vFillerWord(2*i+1))
+			}
+		case 1:
+			lines = append(lines, "this agreement covers every single item listed below namely")
+			for i := 0; i < R; i++ {
+				lines = append(lines, "item covered under terms")
+			}
+		case 2:
+			for i := 0; i < R; i++ {
+				lines = append(lines, vFillerWord(2*i)+" subject to the terms and conditions set out in this part "+vFillerWord(2*i+1))
+			}
+		}
+		doc := strings.Join(lines, "\n")
+		n := len(strings.Fields(doc))
+		cl := NewClassifier(ts[ti])
+		cl.AddContent("License", "Doc", "license.txt", []byte(doc))
+		in, start := doc, 0
+		if ctx == 0 {
+			in = vOOV(1) + " " + vOOV(2) + "\n" + doc + "\n" + vOOV(3) + "\n"
+			start = 2
+		}
+		toks := vTokenize([]byte(in))
+		msg := c01Expect(cl.Match([]byte(in)), toks, "Doc", "License", start, n)
+		r.Note = map[string]interface{}{"id": fmt.Sprintf("T=%v %d x %s context=%d", ts[ti], R, shapes[shape], ctx), "msg": msg}
+	}
+	c.Run(vSplitExplorer(c, 0, 2), body, func(r *vx.Run) {
+		id := r.Note["id"].(string)
+		c.Nontrivial(id)
+		if m := r.Note["msg"].(string); m != "" {
+			c.Violate("c01_refrains:"+strings.ReplaceAll(id, " ", "_"), id+": "+m, r, m)
+		} else {
+			c.Outcome("found")
+		}
+	})
+}
